@@ -184,7 +184,7 @@ Lemma b_search : search_mirror true b_g b_A b_input 100 3 b_costs 250 [] 70000 b
 Proof. vm_compute. reflexivity. Qed.
 
 Lemma b_reference :
-  all_min_repairs b_g b_A b_input 100 3 b_costs 250 [] [65790] b_stk 1 = Some (65790, 259%nat, [repeat Del 258]).
+  all_min_repairs b_g b_A b_input 100 3 b_costs 250 [] [65790] b_stk 1 = Some (65790, 251%nat, [repeat Del 258]).
 Proof. vm_compute. reflexivity. Qed.
 
 Definition search_complete_needs_cost_bound_stmt : Prop := ~ search_complete_stmt true.
@@ -193,7 +193,7 @@ Lemma search_complete_needs_cost_bound : search_complete_needs_cost_bound_stmt.
 Proof.
   intros H. destruct b_validated as (H1 & H2 & H3 & H4 & H5 & H6).
   pose proof (H b_g b_A b_input 100%nat 400%nat 3%nat b_costs 250%nat [] [65790] 70000%nat
-                (mkErr 1 2 false false b_stk) 65790 259%nat [repeat Del 258] []
+                (mkErr 1 2 false false b_stk) 65790 251%nat [repeat Del 258] []
                 H1 H2 H3 H4 H5 (dump_no_shift_eof_ok b_g b_d H6) b_costs_pos ltac:(lia)
                 b_first_error b_search b_reference (repeat Del 258)) as (_ & Hin).
   exact (Hin (or_introl eq_refl)).
